@@ -65,7 +65,7 @@ def assign_registers(data: CodeData, code: list[IC10Instruction]):
         called_from[name].update(module_names)
 
     added_modules = set([""])
-    for module in module_names:
+    for module in sorted(module_names):
         called_from[module] = added_modules.copy()
         added_modules.add(module)
 
